@@ -216,6 +216,13 @@ class GeneralThermodynamics:
         '''
         newPhase = 'DIS_' + phase
         self.phases[0] = newPhase
+
+        #If another thermodynamics object was already built from this Database object, the disordered copy
+        #of the phase and its parameters are in the database. Adding the parameters a second time would
+        #count every one of them twice (free energy and mobility of the matrix phase)
+        if newPhase in self.db.phases:
+            return
+
         self.db.phases[newPhase] = copy.deepcopy(self.db.phases[phase])
         self.db.phases[newPhase].name = newPhase
         del self.db.phases[newPhase].model_hints['ordered_phase']
